@@ -3,7 +3,7 @@ from ..callgraph import explore, storage_effects, message_effects
 from ..expr import show, find
 from ..ledger import ledger_entries, stale_reads
 from .common import entry, msg_enum, variant_env, stored, where, arm_handler
-from .msgs import wasm_execute
+from .msgs import wasm_execute, response_sequences
 from .C10 import BSHUB
 
 BAL = "cw20_legacy::state::BALANCES"
@@ -115,26 +115,29 @@ def run(prog, world, sem, rep):
 
         if v in ("Send", "SendFrom"):
             h = arm_handler(sem, vs)
-            ret = h.resolve(world.ret_expr(h.body))
-            cc = find(ret, lambda y: y.op == "call" and y.info == "std::slice::concat")
-            ok = False
-            detail = "anchor-lost: message concatenation not found in %s" % h.body.path
-            if len(cc) == 1:
-                arr = world.ident(cc[0].args[0])
-                elems = []
-                if arr.op == "call" and arr.info == "vec!" and arr.args[0].op == "array":
-                    elems = list(arr.args[0].args)
+            seqs = []
+            for (bb0, idx0, kind0, x0) in sem.ret_sites(h.be):
+                if kind0 == "ok" and bb0 in h.blocks:
+                    seqs.extend(response_sequences(world, h.resolve(x0)))
+            ok = bool(seqs)
+            detail = "anchor-lost: no response found in %s" % h.body.path
+            for sq in seqs:
                 kinds = []
-                for el in elems:
+                for el in sq:
                     el_i = world.ident(el)
-                    if find(el_i, lambda y: y.op == "adt" and y.info[1] in ("IncreaseBalance", "DecreaseBalance")):
+                    if find(world.norm(el_i), lambda y: y.op == "adt" and y.info[1] in ("IncreaseBalance", "DecreaseBalance")):
                         kinds.append("mirror")
-                    elif el_i.op == "field" and el_i.info[0] == "messages":
+                    elif find(el_i, lambda y: y.op == "field" and y.info[0] == "messages"):
                         kinds.append("wrapped")
                     else:
                         kinds.append("other")
-                ok = kinds == ["mirror", "wrapped"]
+                # one or several mirror elements, then the wrapped cw20 response's messages (the receive hook), nothing else
+                shape = [k for i, k in enumerate(kinds) if i == 0 or k != kinds[i - 1]]
+                if shape != ["mirror", "wrapped"]:
+                    ok = False
                 detail = "message order %s" % kinds
+                if not ok:
+                    break
             rep.ob("C16.c", "bsei::%s mirror before hook" % v, ok, detail, where(h.body))
 
     # reward side
